@@ -32,6 +32,9 @@ pub const EXECUTOR_SITES: &[u32] = &[
     site::MT_RUN_BEFORE_PARK,
     site::POOL_ACTIVATE_FOUND_IDLE,
     site::POOL_ACTIVATE_RELAXED_FOUND_IDLE,
+    site::INJECTOR_INSERT_BEFORE_FLAG,
+    site::INJECTOR_PUSH_BEFORE_FLAG,
+    site::INJECTOR_POP_BEFORE_FLAG,
 ];
 pub const TASK_SITES: &[u32] = &[
     site::TASK_WAKE_BEFORE_SCHEDULE,
